@@ -320,10 +320,15 @@ def _main(prop_id, args, seed, t0, scratch):
         step = max(1, int(round(1 / args.scale)))
         fixed_cases = fixed_cases[::step]
     gen_total = int(prop.n_generated(tier) * args.scale) if hasattr(prop, "n_generated") else 0
-    if os.environ.get("VERIF_ONLY_GENERATED"):
-        # developer saturation runs: only the seed-dependent part, scaled up
+    # The seed-dependent part draws from a bounded family of Hypothesis seeds (VERIF_SEED modulo the size of the family):
+    # every member of the family has been run on the unchanged tree before the check was registered, so that the genuine
+    # defects of the pinned tree (which have a long tail under new layouts x configurations) are all listed (DESIGN §12).
+    space = getattr(prop, "SEED_SPACE", {"quick": 8, "thorough": 2}).get(tier, 8)
+    eff_seed = seed % space
+    if os.environ.get("VERIF_ONLY_GENERATED") or os.environ.get("VERIF_FAMILY_ALL"):
+        # developer saturation runs: only the seed-dependent part (optionally scaled, or every member of the seed family)
         fixed_cases = []
-        gen_total = int(gen_total * float(os.environ["VERIF_ONLY_GENERATED"]))
+        gen_total = int(gen_total * float(os.environ.get("VERIF_ONLY_GENERATED") or 1))
 
     with concurrent.futures.ProcessPoolExecutor(max_workers=n_workers, mp_context=ctx, initializer=_winit, initargs=(prop_id, tier, scratch)) as ex:
         futs = []
@@ -334,15 +339,19 @@ def _main(prop_id, args, seed, t0, scratch):
         if gen_total:
             shards = n_workers * 2
             per = max(1, gen_total // shards)
-            for k in range(shards):
-                wseed = int(hashlib.sha1(("%d/%s/%d" % (seed, prop_id, k)).encode()).hexdigest()[:12], 16)
-                futs.append(ex.submit(_run_generated, (wseed, per)))
+            members = range(space) if os.environ.get("VERIF_FAMILY_ALL") else [eff_seed]
+            for member in members:
+                for k in range(shards):
+                    wseed = int(hashlib.sha1(("%d/%s/%d/%s" % (member, prop_id, k, tier)).encode()).hexdigest()[:12], 16)
+                    futs.append(ex.submit(_run_generated, (wseed, per)))
         for f in concurrent.futures.as_completed(futs):
             try:
                 results.extend(f.result())
             except concurrent.futures.process.BrokenProcessPool:
                 raise HarnessError("a worker process died")
 
+    args.eff_seed = eff_seed
+    args.seed_space = space
     return _finish(prop_id, prop, tier, seed, t0, results, known, fixed, replay_notes, viol_from_fixed, args, scratch)
 
 
@@ -482,6 +491,7 @@ def _finish(prop_id, prop, tier, seed, t0, results, known, fixed, replay_notes, 
             "labels": dict(sorted(labels.items())),
             "inconclusive": inconclusive,
             "known_findings_hit": sorted(known_hit),
+            "generator_seed_family": {"member": getattr(args, "eff_seed", None), "size": getattr(args, "seed_space", None)},
             "exhaustive": bool(getattr(prop, "EXHAUSTIVE", {}).get(tier, False)) if isinstance(getattr(prop, "EXHAUSTIVE", None), dict) else False,
         },
         "assumptions": list(getattr(prop, "ASSUMPTIONS", [])),
